@@ -327,6 +327,7 @@ func coqPairs(ps []pair) string {
 }
 
 func idxCase(r *rng) line {
+	tags0 := ""
 	var events []string
 	var evSample []string
 	idx := labelindex.NewInheritIndex(
@@ -345,6 +346,36 @@ func idxCase(r *rng) line {
 		pool[i] = genExpr(r, r.intn(3))
 	}
 	nops := 10 + r.intn(26)
+	// "collide" histories: several parents set the SAME label (ckey) to DIFFERENT values (parent p -> cvals[p]), the
+	// items leave that label to their parents, the selectors tell the values apart, and UpdateLabels calls change
+	// only the ORDER or the MULTIPLICITY of an item's parent ids (own labels untouched).  The first listed parent
+	// wins, so such an update must move matches.
+	collide := r.chance(45)
+	ckey := r.pick(keys)
+	cvals := []string{"x", "y", "z"}
+	var prelude []int
+	if collide {
+		nParents = 2 + r.intn(2)
+		pool = append([]string{
+			fmt.Sprintf(`%s == "x"`, ckey), fmt.Sprintf(`%s == "y"`, ckey),
+			fmt.Sprintf(`%s in {"y", "z"}`, ckey), fmt.Sprintf(`has(%s) && %s != "x"`, ckey, ckey)}, pool[:2]...)
+		if r.chance(50) {
+			prelude = []int{200, 200, 201, 201, 202, 203, 203, 202, 203}
+			tags0 = "idx:selector-first"
+		} else {
+			prelude = []int{201, 202, 201, 202, 200, 200, 203, 203, 200, 203}
+			tags0 = "idx:endpoint-first"
+		}
+		nops += len(prelude)
+	}
+	type itemState struct {
+		L  map[string]string
+		um uniquelabels.Map
+		ps []int
+	}
+	cur := map[int]*itemState{}
+	nextPar := 0
+	sawReorder, sawReorderMoves := false, false
 	var ops, outs, sample, keyParts []string
 	tags := map[string]bool{}
 	sawStop, sawParentEvent, sawOverride, sawDupParents := false, false, false, false
@@ -353,18 +384,113 @@ func idxCase(r *rng) line {
 		events, evSample = nil, nil
 		var opS, opH string
 		parentOp := false
-		switch k := r.intn(100); {
-		case k < 32:
+		k := r.intn(100)
+		if j < len(prelude) {
+			k = prelude[j]
+		} else if collide && r.chance(22) {
+			k = 203
+		}
+		// 203: change only the order / multiplicity of an item's parent ids
+		var reItem *itemState
+		reID := -1
+		if k == 203 {
+			start := r.intn(nItems)
+			for q := 0; q < nItems; q++ {
+				c := (start + q) % nItems
+				if st := cur[c]; st != nil && len(st.ps) >= 2 {
+					reItem, reID = st, c
+					break
+				}
+			}
+			if reItem == nil {
+				k = 202
+			}
+		}
+		switch {
+		case k == 203:
+			old := reItem.ps
+			nw := append([]int{}, old...)
+			distinct := map[int]bool{}
+			for _, p := range old {
+				distinct[p] = true
+			}
+			how := ""
+			switch {
+			case len(distinct) >= 2 && (len(old) < 3 || r.chance(60)):
+				// a genuine re-ordering: rotate until the list differs
+				for {
+					nw = append(nw[1:], nw[0])
+					same := true
+					for q := range nw {
+						if nw[q] != old[q] {
+							same = false
+						}
+					}
+					if !same {
+						break
+					}
+				}
+				how = "reorder"
+			case len(distinct) >= 2:
+				// same set, same length, other multiplicities: [p,p,q] -> [p,q,q]
+				cnt := map[int]int{}
+				for _, p := range old {
+					cnt[p]++
+				}
+				for q, p := range nw {
+					if cnt[p] >= 2 {
+						for o := range distinct {
+							if o != p {
+								nw[q] = o
+								break
+							}
+						}
+						break
+					}
+				}
+				how = "multiplicity"
+			default:
+				// [p,p] -> [p,q]: one of the duplicates replaced by another parent, equal length
+				nw[len(nw)-1] = (old[0] + 1 + r.intn(nParents-1)) % nParents
+				if nParents < 2 {
+					nw[len(nw)-1] = old[0]
+				}
+				how = "replace-duplicate"
+			}
+			pstr := make([]string, len(nw))
+			for q, p := range nw {
+				pstr[q] = fmt.Sprintf("p%d", p)
+			}
+			idx.UpdateLabels(reID, reItem.um, pstr)
+			reItem.ps = nw
+			opS = fmt.Sprintf("(OpUpdateLabels %d %s %s)", reID, coqLabels(reItem.L), coqNList(nw))
+			opH = fmt.Sprintf("UpdateLabels(%d,%v,%v) [%s of parents only]", reID, reItem.L, pstr, how)
+			tags["op:UpdateLabels"] = true
+			tags["idx:parents-"+how] = true
+			sawReorder = true
+			if len(events) > 0 {
+				sawReorderMoves = true
+			}
+		case k < 32 || k == 202:
 			i := r.intn(nItems)
 			L := genLabels(r, 1+r.intn(3)) // often only some keys, so that inherited labels matter
 			np := r.intn(3)
 			if r.chance(10) {
 				np = 3
 			}
+			if collide {
+				if r.chance(85) {
+					delete(L, ckey) // leave the contested label to the parents
+				}
+				np = 2 + r.intn(2)
+			}
 			var pids []int
 			var pstr []string
 			for q := 0; q < np; q++ {
 				p := r.intn(nParents)
+				if k == 202 && q == 1 && p == pids[0] {
+					p = (p + 1) % nParents // the forced update names two different parents
+				}
 				pids = append(pids, p)
 				pstr = append(pstr, fmt.Sprintf("p%d", p))
 			}
@@ -385,26 +511,35 @@ func idxCase(r *rng) line {
 				um = uniquelabels.Make(L)
 			}
 			idx.UpdateLabels(i, um, pstr)
+			cur[i] = &itemState{L: L, um: um, ps: pids}
 			opS = fmt.Sprintf("(OpUpdateLabels %d %s %s)", i, coqLabels(L), coqNList(pids))
 			opH = fmt.Sprintf("UpdateLabels(%d,%v,%v)", i, L, pstr)
 			tags["op:UpdateLabels"] = true
 		case k < 40:
 			i := r.intn(nItems)
 			idx.DeleteLabels(i)
+			delete(cur, i)
 			opS = fmt.Sprintf("(OpDeleteLabels %d)", i)
 			opH = fmt.Sprintf("DeleteLabels(%d)", i)
 			tags["op:DeleteLabels"] = true
-		case k < 58:
+		case k < 58 || k == 201:
 			p := r.intn(nParents)
+			if k == 201 {
+				p = nextPar % nParents
+				nextPar++
+			}
 			var L map[string]string
 			lab := "None"
-			switch r.intn(10) {
-			case 0: // nil map: uniquelabels.Make(nil) is the Nil Map
-			case 1:
+			switch c := r.intn(10); {
+			case c == 0 && k != 201: // nil map: uniquelabels.Make(nil) is the Nil Map
+			case c == 1 && k != 201:
 				L = map[string]string{}
 				lab = "(Some " + coqLabels(L) + ")"
 			default:
 				L = genLabels(r, 3)
+				if collide && (k == 201 || r.chance(85)) {
+					L[ckey] = cvals[p] // every parent claims the contested label, each with its own value
+				}
 				lab = "(Some " + coqLabels(L) + ")"
 			}
 			idx.UpdateParentLabels(fmt.Sprintf("p%d", p), L)
@@ -421,9 +556,12 @@ func idxCase(r *rng) line {
 			opH = fmt.Sprintf("DeleteParentLabels(p%d)", p)
 			parentOp = true
 			tags["op:DeleteParentLabels"] = true
-		case k < 92:
+		case k < 92 || k == 200:
 			s := r.intn(nSels)
 			txt := r.pick(pool)
+			if k == 200 {
+				txt = pool[r.intn(4)] // one of the selectors that tell the contested values apart
+			}
 			sel := mustParse(txt)
 			idx.UpdateSelector(s, sel)
 			opS = fmt.Sprintf("(OpUpdateSelector %d %s)", s, coqAst(sel.Root()))
@@ -470,6 +608,16 @@ func idxCase(r *rng) line {
 	}
 	if sawDupParents {
 		tags["idx:duplicate-parent-ids"] = true
+	}
+	if collide {
+		tags["idx:contested-label"] = true
+		tags[tags0] = true
+	}
+	if sawReorder {
+		tags["idx:parents-only-update"] = true
+	}
+	if sawReorderMoves {
+		tags["idx:parents-only-update-moves-match"] = true
 	}
 	tags["stream:idx"] = true
 	return line{
